@@ -76,8 +76,10 @@ def exec_one(unit, prefix, expect=None):
     return simcheck.exec_with([monitors.judge_c06], unit, prefix, expect)
 
 
-COMP = [["ss"], ["as"], ["aas"], ["s", "s"], ["as", "s"], ["as", "as"], ["ss", "a"], ["Ls", "s"], ["e", "s"], ["s", "e"]]
-SHAPES = ["S+S", "W+S", "H", "Sm", "Sm+S", "P", "Pw", "M", "Mw", "K", "N", "C+S", "R", "Pc"]
+COMP = [["ss"], ["as"], ["aas"], ["s", "s"], ["as", "s"], ["as", "as"], ["ss", "a"], ["Ls", "s"], ["e", "s"], ["s", "e"],
+        # updates parked in the overflow queue (batch size limit) when the call fails
+        ["L", "L"], ["L", "Ls"], ["aL", "L"], ["O", "s"], ["L", "L", "L"]]
+SHAPES = ["S+S", "W+S", "H", "Sm", "Sm+S", "Smr", "Psmr", "P", "Pw", "M", "Mw", "K", "N", "C+S", "R", "Pc"]
 FAULTS = ["5xx", "429", "4xx", "token", "4xx-tokenmsg", "403"]
 
 
@@ -103,6 +105,10 @@ def space(tier):
         for pol in ("low", "high"):
             units.append(({"producers": prods, "fail_at": 1, "fail_cls": "runtime", "after": "s", "policy": pol, "horizon": 30.0},
                           {"thread": 1, "timer": 1, "total": 1}, cap))
+    # the failing call next to <=2 stalls of 250 ms at signalling / waiting operations, plus one preemption
+    for prods in COMP:
+        units.append(({"producers": prods, "fail_at": 1, "fail_cls": "runtime", "after": "s", "horizon": 30.0, "timer": False,
+                       "stall": [0.25], "stall_ops": ["signal", "wait"]}, {"stall": 2, "thread": 1, "total": 3}, cap))
     if not quick:
         for prods in (["s"], ["as"], ["s", "s"]):
             units.append(({"producers": prods, "fail_at": 1, "fail_cls": "runtime", "after": "s", "line": True,
@@ -134,6 +140,12 @@ def space(tier):
         p = P.program(tuple(sh.split("+")))
         units.append(({"program": p, "cfg": {"env_kinds": ["fault", "page"], "faults": [], "state_faults": ["5xx", "4xx"],
                                              "page_modes": [4, 1]}}, {"fault": 1, "page": 1, "total": 2}, cap))
+    # a synchronous record that alone exceeds the 750 KB batch limit waits in the overflow queue while the call fails
+    for nm, seq in (("S[800KB]+S", [{"k": "step", "fn": {"bytes": 800_000}}, {"k": "step", "fn": {"ret": 2}}]),
+                    ("par[S[400KB]|S[400KB]]", [{"k": "par", "cfg": {"cc": "all_completed"}, "branches": [
+                        [{"k": "step", "fn": {"bytes": 400_000}}], [{"k": "step", "fn": {"bytes": 400_000}}]]}])):
+        units.append(({"program": {"name": nm, "seq": seq}, "cfg": {"env_kinds": ["fault"], "faults": ["5xx", "4xx"]}},
+                      {"fault": 1, "total": 1}, cap))
     big = {"name": "S+bigresult", "seq": P.U("S"), "ret": {"pad": 6 * 1024 * 1024}}
     units.append(({"program": big, "cfg": {"env_kinds": ["fault"], "faults": FAULTS}}, {"fault": 1, "total": 1}, cap))
     # callers queued behind the failing in-flight call (50 ms API latency, step bodies of 120 ms)
